@@ -46,7 +46,7 @@ def interp2d(x, xf, f):
     a0 = xf[ind0]
     a1 = xf[ind1]
     denom = (a1 - a0)
-    denom_adj = np.clip(denom, 1e-10, None)  # to avoid divide by zero warning
+    denom_adj = np.where(denom > 0, denom, 1.0)  # to avoid divide by zero warning (a clip at 1e-10 distorts closely spaced nodes)
     s0 = np.where(denom > 0, (x - a0) / denom_adj, 1)  # if denom less than 0, then out of bounds
     s1 = 1 - s0
     return s1[:, np.newaxis] * f0 + s0[:, np.newaxis] * f1
